@@ -14,7 +14,7 @@ ASSUMPTIONS = ['definedness is a data-flow fact of the executor: a byte is undef
 def jobs(tier, seed):
     out = []
     for j in c01.jobs(tier, seed):
-        if j['cfg']['symnames']: continue
+        if j['cfg']['symnames'] or j['cfg']['pad'] >= 0: continue
         cfg = dict(j['cfg']); cfg['source'] = 0
         out.append({'entry': 'h_c14', 'harness': 'h_c01.cpp', 'cfg': cfg, 'name': 'api-built'})
     for j in c02.jobs(tier, seed):
